@@ -593,4 +593,16 @@ Section Validated.
     destruct (client_validate_trust_level cs Hv) as (Hn & Hd & _).
     exact (Fn Nadj Hn Hd).
   Qed.
+
+  Lemma header_within_trusting_period cs s hdr now r :
+    wf_header hdr ->
+    check_header_and_update_state valset_hash header_hash verify_sig cs s hdr now = Ok r ->
+    forall sh h, h_signed hdr = Some sh -> sh_header sh = Some h ->
+    hd_time h + cs_trusting cs > now /\ hd_time h < now + cs_drift cs.
+  Proof.
+    intros Hwf H sh h Es Eh. apply chus_accept_sound in H; [|exact Hwf].
+    destruct H as (tc & tvals' & ttot' & sh' & h' & c' & vals' & tot' & hrev & F).
+    destruct F as (_ & _ & _ & Fs & Fh & _ & _ & _ & _ & _ & T1 & T2 & T3 & _).
+    rewrite Es in Fs. inversion Fs; subst sh'. rewrite Eh in Fh. inversion Fh; subst h'. lia.
+  Qed.
 End Validated.
